@@ -137,17 +137,92 @@ def lean_id(x):
 
 # ------------------------------------------------------------------------------------------ source access
 
-def find_item(text, container, kind, name):
-    """(start, end) offsets of exactly one item `kind name` directly inside the container (or at the file's
-    top level); a struct may end with `;` (tuple / unit struct)"""
-    lo, hi = 0, len(text)
-    if container:
-        ck, cn = container.split()
-        hits = [m for m in re.finditer(r"\b%s\s+%s\s*\{" % (ck, re.escape(cn)), text) if depth_at(text, 0, m.start()) == 0]
+def split_impl_header(h):
+    """`<A, B> Tr<..> for Ty<..> where ..` -> (generics, trait tokens | None, type tokens)"""
+    toks = [v for _, v in tokenize(h)][:-1]
+    i, gs = 0, []
+    if toks and toks[0] == "<":
+        d, i = 1, 1
+        cur = []
+        while i < len(toks) and d:
+            v = toks[i]
+            if v == "<":
+                d += 1
+            elif v == ">":
+                d -= 1
+                if d == 0:
+                    break
+            if d == 1 and v == ",":
+                gs.append(cur)
+                cur = []
+            else:
+                cur.append(v)
+            i += 1
+        if cur:
+            gs.append(cur)
+        i += 1
+    first, second, d, cur = None, None, 0, []
+    while i < len(toks):
+        v = toks[i]
+        if d == 0 and v == "where":
+            break
+        if d == 0 and v == "for":
+            first, cur = cur, []
+        else:
+            d += v in ("<", "(", "[")
+            d -= v in (">", ")", "]")
+            cur.append(v)
+        i += 1
+    if first is None:
+        return gs, None, cur
+    return gs, first, cur
+
+
+def spec_matches(spec, toks):
+    """a container spec `Name` matches `Name` and `Name<..>`; `Name<Args>` matches only that (spaces ignored)"""
+    spec = spec.replace(" ", "")
+    have = "".join(toks)
+    return have == spec or ("<" not in spec and (have.startswith(spec + "<")))
+
+
+def find_container(text, container):
+    """(lo, hi, impl generics, self type tokens) of the body of exactly one top-level `mod x` / `impl ..` block.
+    container: `mod x` | `impl Type` (inherent impl) | `impl Trait for Type`; Type / Trait with or without `<..>`"""
+    ck, rest = container.split(None, 1)
+    if ck == "mod":
+        hits = [m for m in re.finditer(r"\bmod\s+%s\s*\{" % re.escape(rest), text) if depth_at(text, 0, m.start()) == 0]
         if len(hits) != 1:
             raise Reject(f"expected exactly one top-level `{container} {{`, found {len(hits)}")
-        lo = hits[0].end()
-        hi = match_brace(text, hits[0].end() - 1)
+        return hits[0].end(), match_brace(text, hits[0].end() - 1), [], None
+    want_trait, want_ty = (None, rest)
+    if " for " in rest:
+        want_trait, want_ty = [x.strip() for x in rest.split(" for ", 1)]
+    found = []
+    for m in re.finditer(r"\bimpl\b([^{;]*)\{", text):
+        if depth_at(text, 0, m.start()) != 0:
+            continue
+        gs, tr, ty = split_impl_header(m.group(1))
+        if (tr is None) != (want_trait is None):
+            continue
+        if tr is not None and not spec_matches(want_trait, tr):
+            continue
+        if spec_matches(want_ty, ty):
+            found.append((m, gs, ty))
+    if len(found) != 1:
+        raise Reject(f"expected exactly one top-level `{container} {{`, found {len(found)}")
+    m, gs, ty = found[0]
+    for g in gs:
+        if len(g) != 1:
+            raise Reject(f"`{container}`: bound / lifetime on impl parameter `{' '.join(g)}` (only a `where` clause is accepted)")
+    return m.end(), match_brace(text, m.end() - 1), [g[0] for g in gs], ty
+
+
+def find_item(text, container, kind, name):
+    """(start, end, impl generics, impl self type tokens) of exactly one item `kind name` directly inside the
+    container (or at the file's top level); a struct may end with `;` (tuple / unit struct)"""
+    lo, hi, gs, sty = 0, len(text), [], None
+    if container:
+        lo, hi, gs, sty = find_container(text, container)
     hits = [m for m in re.finditer(r"\b%s\s+%s\b" % (kind, re.escape(name)), text[lo:hi]) if depth_at(text, lo, lo + m.start()) == 0]
     if len(hits) != 1:
         raise Reject(f"expected exactly one `{kind} {name}` at {container or 'top level'}, found {len(hits)}")
@@ -160,13 +235,14 @@ def find_item(text, container, kind, name):
     if text[j] == ";":
         if kind != "struct":
             raise Reject(f"`{kind} {name}` has no body")
-        return start, j + 1
-    return start, match_brace(text, j) + 1
+        return start, j + 1, gs, sty
+    return start, match_brace(text, j) + 1, gs, sty
 
 
 # ------------------------------------------------------------------------------------------ parser (AST)
 
 BLOCKLIKE = ("if", "iflet", "match", "block")
+TRACING = ("error", "warn", "info", "debug", "trace")
 
 
 class Parser:
@@ -245,8 +321,12 @@ class Parser:
                 if self.peek() == "const":
                     raise Reject("const generic parameter")
                 g = self.ident()
-                if self.peek() in (":", "="):
-                    raise Reject(f"bound / default on generic parameter `{g}` (only a `where` clause is accepted)")
+                if self.peek() == ":":
+                    raise Reject(f"bound on generic parameter `{g}` (only a `where` clause is accepted)")
+                if self.peek() == "=":
+                    # default type argument: irrelevant here, every use of the type must give all arguments
+                    self.next()
+                    self.type_tokens({","})
                 gs.append(g)
                 if self.peek() == ",":
                     self.next()
@@ -275,8 +355,11 @@ class Parser:
             self.eat(")")
             self.eat(";")
             return name, gs, True, fields
+        if self.peek() == ";":
+            self.next()
+            return name, gs, False, []
         if self.peek() != "{":
-            raise Reject(f"struct `{name}`: `{self.peek()}` (unit struct?)")
+            raise Reject(f"struct `{name}`: `{self.peek()}`")
         self.eat("{")
         while self.peek() != "}":
             self.skip_attrs()
@@ -355,7 +438,12 @@ class Parser:
             elif first and self.peek() == "&" and self.peek(1) == "'":
                 raise Reject("lifetime on the receiver")
             elif first and (self.peek() == "self" or (self.peek() == "mut" and self.peek(1) == "self")):
-                raise Reject("receiver `self` by value (only `&self` / `&mut self`)")
+                # receiver by value: `self` is an ordinary (mutable, if `mut self`) local of the body
+                mode = "ownmut" if self.next() == "mut" else "own"
+                if mode == "ownmut":
+                    self.next()
+                if self.peek() == ":":
+                    raise Reject("typed receiver `self: ..`")
             else:
                 mut = False
                 if self.peek() == "mut":
@@ -400,7 +488,41 @@ class Parser:
             if v == "let":
                 stmts.append(self.let())
                 continue
-            if v in ("use", "fn", "struct", "enum", "impl", "const", "static", "type", "mod", "trait"):
+            if v == "use":
+                self.next()
+                segs = [self.ident()]
+                while self.peek() == "::":
+                    self.next()
+                    if self.peek() == "*":
+                        self.next()
+                        segs.append("*")
+                        break
+                    segs.append(self.ident())
+                if segs[-1] != "*" or self.peek() != ";":
+                    raise Reject("`use` inside a function body other than `use Enum::*;`")
+                self.next()
+                stmts.append(("use", segs[:-1]))
+                continue
+            if self.kind() == "id" and v in TRACING and self.peek(1) == "!" and self.peek(2) in ("(", "[", "{"):
+                # tracing macros only log: no effect on state or result
+                self.next(); self.next()
+                d = 0
+                while True:
+                    x = self.next()
+                    if x in ("(", "[", "{"):
+                        d += 1
+                    elif x in (")", "]", "}"):
+                        d -= 1
+                        if d == 0:
+                            break
+                    elif x == "<end>":
+                        raise Reject(f"unterminated `{v}!`")
+                if self.peek() == ";":
+                    self.next()
+                elif self.peek() != "}":
+                    raise Reject(f"`{self.peek()}` after `{v}!(..)`")
+                continue
+            if v in ("fn", "struct", "enum", "impl", "const", "static", "type", "mod", "trait"):
                 raise Reject(f"`{v}` item inside a function body")
             if v in ("for", "while", "loop"):
                 raise Reject(f"`{v}` loop")
@@ -673,6 +795,20 @@ class Parser:
             segs.append(self.ident())
         shown = "::".join(segs)
         if self.peek() == "!" and self.peek(1) in ("(", "[", "{"):
+            if shown in ("unreachable", "panic"):
+                self.next()
+                d = 0
+                while True:
+                    x = self.next()
+                    if x in ("(", "[", "{"):
+                        d += 1
+                    elif x in (")", "]", "}"):
+                        d -= 1
+                        if d == 0:
+                            break
+                    elif x == "<end>":
+                        raise Reject(f"unterminated `{shown}!`")
+                return ("panic", shown)
             raise Reject(f"macro `{shown}!`")
         if self.peek() == "(":
             return ("call", segs, self.args(shown))
@@ -770,10 +906,10 @@ def ty_lean(t):
         return f"Except {ty_atom(t[2])} {ty_atom(t[1])}"
     if k == "struct":
         return " ".join([t[1]] + [ty_atom(a) for a in t[2]])
-    if k == "enum":
+    if k in ("enum", "tvar", "opaque"):
         return t[1]
-    if k == "tvar":
-        return t[1]
+    if k == "list":
+        return f"List {ty_atom(t[1])}"
     if k == "tuple":
         return " × ".join(ty_atom(a) for a in t[1])
     raise Reject(f"type {ty_rust(t)} cannot be written in Lean (not determined)")
@@ -796,13 +932,15 @@ def ty_rust(t):
         return t[1] + (("<" + ", ".join(ty_rust(a) for a in t[2]) + ">") if t[2] else "")
     if k == "tuple":
         return "(" + ", ".join(ty_rust(a) for a in t[1]) + ")"
+    if k == "list":
+        return f"Vec<{ty_rust(t[1])}>"
     return t[1]
 
 
 def has_hole(t):
     if t in (HOLE, INTLIT):
         return True
-    if t[0] == "opt":
+    if t[0] in ("opt", "list"):
         return has_hole(t[1])
     if t[0] == "res":
         return has_hole(t[1]) or has_hole(t[2])
@@ -827,9 +965,9 @@ def unify(a, b):
         return a if a in (NAT, INT) else None
     if a[0] != b[0]:
         return None
-    if a[0] == "opt":
+    if a[0] in ("opt", "list"):
         u = unify(a[1], b[1])
-        return ("opt", u) if u else None
+        return (a[0], u) if u else None
     if a[0] == "res":
         u, v = unify(a[1], b[1]), unify(a[2], b[2])
         return ("res", u, v) if u and v else None
@@ -845,8 +983,8 @@ def unify(a, b):
 def subst(t, m):
     if t[0] == "tvar":
         return m.get(t[1], t)
-    if t[0] == "opt":
-        return ("opt", subst(t[1], m))
+    if t[0] in ("opt", "list"):
+        return (t[0], subst(t[1], m))
     if t[0] == "res":
         return ("res", subst(t[1], m), subst(t[2], m))
     if t[0] == "struct":
@@ -854,6 +992,55 @@ def subst(t, m):
     if t[0] == "tuple":
         return ("tuple", tuple(subst(a, m) for a in t[1]))
     return t
+
+
+def match_ty(pat, actual, m):
+    """one-way matching: binds the type variables of `pat` so that it becomes `actual` (holes in `actual` match
+    anything and bind nothing); False if impossible"""
+    if pat[0] == "tvar":
+        if actual in (HOLE,):
+            return True
+        if pat[1] in m:
+            u = unify(m[pat[1]], actual)
+            if u is None:
+                return False
+            m[pat[1]] = u
+            return True
+        m[pat[1]] = actual
+        return True
+    if actual == HOLE:
+        return True
+    if actual == INTLIT:
+        return pat in (NAT, INT)
+    if pat[0] != actual[0]:
+        return False
+    if pat[0] in ("opt", "list"):
+        return match_ty(pat[1], actual[1], m)
+    if pat[0] == "res":
+        return match_ty(pat[1], actual[1], m) and match_ty(pat[2], actual[2], m)
+    if pat[0] == "struct":
+        return pat[1] == actual[1] and len(pat[2]) == len(actual[2]) and all(match_ty(x, y, m) for x, y in zip(pat[2], actual[2]))
+    if pat[0] == "tuple":
+        return len(pat[1]) == len(actual[1]) and all(match_ty(x, y, m) for x, y in zip(pat[1], actual[1]))
+    return pat == actual
+
+
+def tvars_of(t, acc=None):
+    acc = [] if acc is None else acc
+    if t[0] == "tvar":
+        if t[1] not in acc:
+            acc.append(t[1])
+    elif t[0] in ("opt", "list"):
+        tvars_of(t[1], acc)
+    elif t[0] == "res":
+        tvars_of(t[1], acc); tvars_of(t[2], acc)
+    elif t[0] == "struct":
+        for a in t[2]:
+            tvars_of(a, acc)
+    elif t[0] == "tuple":
+        for a in t[1]:
+            tvars_of(a, acc)
+    return acc
 
 
 class Struct:
@@ -879,13 +1066,30 @@ class Enum:
 
 
 class Fn:
-    def __init__(self, lean, mode, self_ty, params, ret):
-        self.lean, self.mode, self.self_ty, self.params, self.ret = lean, mode, self_ty, params, ret
+    def __init__(self, lean, mode, self_ty, params, ret, tvars=()):
+        self.lean, self.mode, self.self_ty, self.params, self.ret, self.tvars = lean, mode, self_ty, params, ret, list(tvars)
+
+    def instance(self, recv_ty, arg_tys, shown):
+        """(param types, ret type) with the fn's type variables replaced by what the call site determines"""
+        if not self.tvars:
+            return [t for _, t in self.params], self.ret
+        ren = {v: ("tvar", "'" + v) for v in self.tvars}     # callee variables are distinct from the caller's
+        m = {}
+        ok = True
+        if recv_ty is not None and self.self_ty is not None:
+            ok = match_ty(subst(self.self_ty, ren), recv_ty, m)
+        for (_, pt), at in zip(self.params, arg_tys):
+            if at is not None:
+                ok = ok and match_ty(subst(pt, ren), at, m)
+        if not ok:
+            raise Reject(f"call of `{shown}`: argument types do not fit its generic signature")
+        back = {"'" + v: m.get("'" + v, HOLE) for v in self.tvars}
+        return [subst(subst(t, ren), back) for _, t in self.params], subst(subst(self.ret, ren), back)
 
 
 class World:
     def __init__(self):
-        self.structs, self.enums, self.fns = {}, {}, {}
+        self.structs, self.enums, self.fns, self.opaque = {}, {}, {}, set()
         self.generic_fns = {}     # (container, name) -> (parsed fn, lean base name, where-text)
         self.instances = {}       # (container, name, type) -> Fn
         self.pending = []         # Lean text of instances generated while compiling the current item
@@ -962,6 +1166,10 @@ class TypeResolver:
             return self.self_ty
         if v == "Option" and len(args) == 1:
             return ("opt", args[0])
+        if v == "Vec" and len(args) == 1:
+            return ("list", args[0])
+        if v in self.w.opaque and not args:
+            return ("opaque", v)
         if v == "Result" and len(args) == 2:
             return ("res", args[0], args[1])
         if v in self.tvars and not args:
